@@ -353,8 +353,11 @@ class Spelling:
     """surface choices: abbrev (use abbreviations where XPath allows them), ws (white space between tokens),
     parens (redundant parentheses)"""
 
-    def __init__(self, rng=None, abbrev=True, ws=False, parens=False):
+    def __init__(self, rng=None, abbrev=True, ws=False, parens=False, selfstep=False):
         self.r, self.abbrev, self.ws, self.parens = rng, abbrev, ws, parens
+        # `.` is short for self::node() (2.5), and a step from the context node itself leads where the path led without it:
+        # a relative path P may be written ./P or self::node()/P
+        self.selfstep = selfstep
 
     def sp(self):
         if not self.ws:
@@ -474,6 +477,8 @@ def spell(e, sp, prec=0):
                 s = "/" + sp.sp() + spell_steps(steps, sp)
         else:
             s = spell_steps(steps, sp)
+            if sp.selfstep and steps:
+                s = ("." if sp.abbrev else "self::node()") + sp.sp() + "/" + sp.sp() + s
         if prec > 8 and False:
             s = "(" + s + ")"
     else:
